@@ -1,7 +1,8 @@
 \* thorough: every accounting clause as its own invariant, one edit deep with rich parameters, third core with edge assemblies
-CONSTANTS NLeaf = 6  NBlk = 4  NAsm = 4  MaxLevel = 2  LMax = 20000  VMax = 100
+CONSTANTS NLeaf = 6  NBlk = 4  NAsm = 4  MaxLevel = 2  LSrc = 600  LMax = 20000  VMax = 100
 CONSTANTS Parent <- TEdgeParent  Area <- TEdgeArea  Height <- TEdgeHeight  Sym <- TEdgeSym  W <- Wt  N0 <- TEdgeN0  H0 <- TEdgeH0
 CONSTANTS Targets <- TEdgeTargetsAll  Vals <- ValsT  Facs <- FacsT  Masses <- MassesT  Maps <- MapsT  FracMaps <- FracMapsT  AddMaps <- AddMapsT  SetMaps <- SetMapsT
+CONSTANTS AdjSets <- AdjSetsT  EnrFracs <- EnrFracsT  AdjMFs <- AdjMFsT
 CONSTANTS HDom <- HDom123  HTargets <- TEdgeHAll  HVals <- HDom123
 CONSTANTS LeafVolCut <- LeafVolCutEnv  ScaleRaises <- ScaleRaisesEnv
 INIT InitB
